@@ -193,6 +193,7 @@ TypeOK      == TypeOKs(S)
 (* binding to recorded executions: only observable results and data are constrained *)
 InitFrom(r) == data = r.data /\ cacheC = <<>> /\ cacheM = <<>> /\ path = <<>>
 Legal(s) == TypeOKs(s)
+Suspended(e) == FALSE
 ObsLegal(e) == TRUE
 TEq(x, y) == x.nd = y.nd /\ x = y
 Judge(s, e) ==
